@@ -181,7 +181,7 @@ class TocFetcher:
                          self.port, self.nbr_of_items, self._crc)
 
             cache_data = self._toc_cache.fetch(self._crc)
-            if (cache_data):
+            if (cache_data and self._is_valid_cached_toc(cache_data)):
                 self.toc.toc = cache_data
                 logger.info('TOC for port [%s] found in cache' % self.port)
                 self._toc_fetch_finished()
@@ -218,6 +218,21 @@ class TocFetcher:
             else:  # No more variables in TOC
                 self._toc_cache.insert(self._crc, self.toc.toc)
                 self._toc_fetch_finished()
+
+    def _is_valid_cached_toc(self, cache_data):
+        """A cached TOC can only be used if it is a group -> name -> element
+        table of the element class of this fetcher. The log and the parameter
+        TOC share the cache, a file stored for the other table under the same
+        CRC must be treated as a cache miss."""
+        if not isinstance(cache_data, dict):
+            return False
+        for group in cache_data.values():
+            if not isinstance(group, dict):
+                return False
+            for element in group.values():
+                if not isinstance(element, self.element_class):
+                    return False
+        return True
 
     def _request_toc_element(self, index):
         """Request information about a specific item in the TOC"""
